@@ -404,7 +404,40 @@ def rule_hitwindow(ctx):
             yield o
 
 
+def rule_occthresh(ctx):
+    """occurrence_FPR keeps a (reference, estimate) pair when its best cell reaches the threshold: max(s) >= thres,
+    closed - with thres = 1.0 a perfect estimate has max(s) == 1 for its own pattern and must still count."""
+    from .. import finmodel
+
+    R = "C02.OCCTHRESH"
+    f = ctx.program.func("pattern.occurrence_FPR", R)
+    s = ctx.S.get(f.qual)
+    thr = tm.param("thres")
+    sites = [m for m in s.by_kind("mutate") if any(c is not None and any(z is thr for z in tm.walk(c)) for c, _ in symeval.pc_conds(m.pc))]
+    need(sites, R, "occurrence_FPR: no store is guarded by a test on `thres`")
+    seen = set()
+    for m in sites:
+        conds = [(c, p) for c, p in symeval.pc_conds(m.pc) if any(z is thr for z in tm.walk(c))]
+        key = tuple((c.id, p) for c, p in conds)
+        if key in seen:
+            continue
+        seen.add(key)
+        g = None
+        mx = None
+        for c, p in conds:
+            t = c if p else tm.unop("not", c)
+            g = t if g is None else tm.boolop("and", [g, t])
+            for z in tm.walk(c):
+                if z.op == "call" and call_name(z) in ("np.max", "np.amax", "builtins.max") and z is not thr:
+                    mx = z
+        need(mx is not None, R, "occurrence_FPR: the threshold is not compared with a maximum of the score matrix")
+        eq = finmodel.equivalent(g, tm.cmp("<=", thr, mx))
+        need(eq is not None, R, "occurrence_FPR: threshold guard %s is not a comparison of max(s) with thres" % tm.show(g, 3))
+        yield ob(R, f, "pattern.occurrence_FPR:keep-iff-max>=thres#%d" % len(seen), bool(eq), "a pair is kept iff max(s) >= thres" if eq else "the pair is kept under %s, which is not max(s) >= thres: a pair whose best cell equals the threshold is treated differently" % tm.show(g, 3), node=m.node)
+
+
 RULES = [
+    ("C02.OCCTHRESH", 1, rule_occthresh),
     ("C02.VELFIT", 1, common.shared("c01", "rule_valueden", "C02.VELFIT", keep=lambda o: o.construct.startswith("transcription_velocity.match_notes:"))),
     ("C02.TRIMFORM", 8, rule_trimform),
     ("C02.HITWINDOW", 4, rule_hitwindow),
